@@ -243,6 +243,20 @@ def _closure_item(view, term):
     return None
 
 
+def _loc_shape_compare(a, b):
+    """True: the same constant step on the own location; False: constant steps that differ (or a different kind of step);
+    None: not compared (variables)"""
+    a, b = strip_refs(a), strip_refs(b)
+    if a[0] in ("push_key", "push_index") and b[0] in ("push_key", "push_index") and len(a) >= 3 and len(b) >= 3:
+        if a[0] != b[0]:
+            return False
+        ka, kb = strip_refs(a[2]), strip_refs(b[2])
+        if ka[0] == "const" and kb[0] == "const":
+            return ka == kb
+        return None
+    return None
+
+
 def _loc_shape_equal(a, b):
     """closure-side and parent-side location terms: the same push_key / push_index steps with the same constant / own base"""
     a, b = strip_refs(a), strip_refs(b)
@@ -386,10 +400,13 @@ def c04_rules(view, bs, root_loc_names=("location", "deserr_location__"), root_v
                             # (`T::deserialize_from_value(..).or_else(|e| ..)`) it is that child's, and belongs at the child's location
                             src_kind, want_loc = _closure_arg_source(view)
                             if src_kind == "child":
-                                if want_loc is not None and _loc_shape_equal(locc, want_loc):
+                                verdict = _loc_shape_compare(locc, want_loc) if want_loc is not None else None
+                                if verdict is True:
                                     continue
                                 f_.what = "the error of a child, handed over inside a closure, is not located where the child was examined"
-                                if want_loc is None:
+                                if verdict is None:
+                                    # (an index / key that is a variable on both sides of the closure boundary is not compared)
+                                    f_.what += ": the two locations were not compared: not recognised (undecided)"
                                     f_.undecided = True
                             elif src_kind is None:
                                 f_.what += " - what the closure's argument is was not read: not recognised (undecided)"
